@@ -3,6 +3,8 @@ CONSTANTS KnownDevs = {}
 INVARIANTS
   InEnvelope
   C05_NoDatapathResidue
+  C05_Up4PoolsRestored
+  C05_DeletionOfLiveSessionNotRefused
   C05_NoUp4Residue
   C05_SessionRecordsForgotten
   C05_AddressesReturned
